@@ -10,6 +10,7 @@ import IsoVerif.Driver.C02
 import IsoVerif.Driver.C20
 import IsoVerif.Driver.C06
 import IsoVerif.Driver.C05
+import IsoVerif.Driver.C05Multi
 import IsoVerif.Driver.C10
 import IsoVerif.Driver.C09
 import IsoVerif.Driver.C08
@@ -40,6 +41,7 @@ def allOps : List (String × Handler) :=
   ++ prefixOps "C20" C20.ops
   ++ prefixOps "C06" C06.ops
   ++ prefixOps "C05" C05.ops
+  ++ prefixOps "C05M" C05Multi.ops
   ++ prefixOps "C10" C10.ops
   ++ prefixOps "C09" C09.ops
   ++ prefixOps "C08" C08.ops
